@@ -309,12 +309,13 @@ pub struct Gen<'a> {
     pub vars: Vec<(String, Ty)>, // let-bound identifiers in scope
     pub lets: bool,
     pub colls: bool,
+    pub everywhere: bool, // let-bound names also in positions that do not unwrap them (index, condition, branch, member ...)
     fresh: usize,
 }
 
 impl<'a> Gen<'a> {
     pub fn new(rng: &'a mut Rng, lets: bool, colls: bool) -> Self {
-        Gen { rng, vars: vec![], lets, colls, fresh: 0 }
+        Gen { rng, vars: vec![], lets, colls, everywhere: false, fresh: 0 }
     }
     fn var_of(&mut self, ty: &Ty) -> Option<T> {
         let c: Vec<&(String, Ty)> = self.vars.iter().filter(|(_, t)| t == ty).collect();
@@ -339,6 +340,11 @@ impl<'a> Gen<'a> {
     /// an expression whose own value is a proper value of type `ty`
     pub fn expr(&mut self, ty: &Ty, d: usize) -> T {
         let b = |t: T| Box::new(t);
+        if self.everywhere && self.rng.chance(1, 4) {
+            if let Some(v) = self.var_of(ty) {
+                return v;
+            }
+        }
         if d == 0 {
             return match ty {
                 Ty::Int => {
@@ -535,7 +541,7 @@ pub const DIRECTED: &[&str] = &[
     "let x = 1 in [x][0] + 1", "let x = true in [x][0]", "let x = 1 in let a = [x][0] in a + 1", "let x = 1 in let y = x in y + 1",
     "let a = 1; b = a in b", "let a = 1; a = \"s\" in a + 1", "let a = 1; a = 2 in a + 1", "(let x = 1 in [x + 1])[0]", "(let x = 1 in [x + 1])[0] + 1",
     "(let x = \"s\" in [x])[0] =~ \"a\"", "let x = 1 in (let x = \"s\" in [x])[0] =~ \"a\"", "(let x = 1 in (x, 2)).0 + 1", "let x = (1, 2) in x.0 + 1",
-    "let x = [1] in x[0]", "let x = 1 in x _: [1]", "let x = 1 in 1 _: [x]", "let x = 1 in (1 + 0) _: [x]", "let x = 1 in to_string(x)",
+    "let x = [1] in x[0]", "let x = 1 in x _: [1]", "let i = 1 in [10, 20, 30][i]", "let i = 1 in [10, 20, 30][i + 0]", "let c = true in (c ? 1 : 2)", "let x = 1; y = 1 in (if true then x else y) + 1", "let x = 1; y = 2 in (if true then x else y) + 1", "let x = 1 in (x, 2).0", "let x = 1 in (x, 2).0 + 1", "let x = \"a\" in x _: [x]", "let x = 1 in 1 _: [x]", "let x = 1 in (1 + 0) _: [x]", "let x = 1 in to_string(x)",
     "let x = \"a\" in strcat([x, x])", "let x = request.target in x =~ \"a\"", "let x = request.target in x.host", "let x = request in x.listener",
     "let to_string = 1 in to_string(2)", "let request = 1 in request + 1", "if true then 1 else \"a\"", "if 1 then 1 else 2", "true ? 1 : 2",
     "if request.target.port > 1000 then \"hi\" else \"lo\"", "(if false then (let x = 1 in let a = [x][0] in a) else (let x = \"s\" in let a = [x][0] in a)) + 1",
@@ -586,7 +592,13 @@ pub async fn run(out: &mut Out) {
     let n = if thorough { 60000 } else { 6000 };
     for i in 0..n {
         let r = &reqs[rng.below(reqs.len())];
-        let (fam, t) = match i % 4 {
+        let (fam, t) = match i % 5 {
+            4 => {
+                let mut g = Gen::new(&mut rng, true, true);
+                g.everywhere = true;
+                let ty = g.rng.pick(&[Ty::Bool, Ty::Bool, Ty::Int, Ty::Str]).clone();
+                ("varpos", g.expr(&ty, 2 + i % 3))
+            }
             0 => {
                 let mut g = Gen::new(&mut rng, false, false);
                 let ty = g.rng.pick(&[Ty::Bool, Ty::Bool, Ty::Int, Ty::Str]).clone();
